@@ -131,7 +131,7 @@ impl SendWindow {
     /// the window is considered also full at level = 1 if the receiving window does not have
     /// a pending ACK.
     fn is_full(&self, recv_window: &RecvWindow) -> bool {
-        self.level == 0 || self.level == 1 && recv_window.ack_level == 0
+        self.level == 0 || self.level == 1 && recv_window.pending_ack().is_none()
     }
 
     /// Return the next sequence to be used when sending a BTP segment.
